@@ -453,8 +453,14 @@ def run_case(case, ctx):
             net.EDGES[eid].weight = w2
         D2 = G.floyd_warshall(n, G.arcs(spec2))
         pairs = [(s0, t) for t in range(n)] + [(hr.randrange(n), hr.randrange(n)) for _ in range(8)]
-        for (a, b) in pairs[:14]:
-            r = M.call(net.shortest_distance, ids[a], ids[b])
+        for qi, (a, b) in enumerate(pairs[:14]):
+            if qi % 2 and shared:
+                # ... through the documented output_dict option, with the dictionary that the requests made BEFORE the
+                # weights were changed have filled (the successive use the documentation describes)
+                r = M.call(net.shortest_distance, ids[a], ids[b], 1e300, shared)
+                ctx.count("request_after_reweighting_with_the_output_dict_filled_before")
+            else:
+                r = M.call(net.shortest_distance, ids[a], ids[b])
             ctx.monitor("reweighted_in_place.pair_vs_floyd_warshall")
             d = D2[a][b]
             ok = (not M.is_raised(r)) and isinstance(r, (int, float)) and ((r < 0) if d == G.INF else (r >= 0 and G.close(r, d)))
